@@ -20,6 +20,8 @@ EXPLANATION = (
     "string has the length of the argument tuple and uses only keys of mode_types, every `mode == k` / `mode in (...)` tests a mode that exists; "
     "A6 no ==/!= between a term parameter of a builtin and a Python string (Term.__eq__ is constant False for non-terms); A7 the arithmetic "
     "comparison builtins </=</>/>=/=:=/=\\= apply the Python operator of the same meaning to the computed values in argument order. "
+    "A8 length/2, per call mode of its check_mode table: in the modes whose list argument is partial ('l' open list, 'v' unbound) every answer is a "
+    "closed list built by build_list(.., Term('[]')) (the tail gets bound), in the proper-list modes the list is returned unchanged. "
     "A4 (error conversion) is decided under C27/E4. Numeric results for all operands and float formatting are value-level and not decided."
 )
 TECHNIQUE = "static analysis: documentation/table agreement, abstract operator semantics vs frozen Prolog table, call-mode table consistency"
@@ -304,7 +306,51 @@ def rule_a7(repo, col):
                    construct="def %s: call mode" % f.name, function=f.name)
 
 
+def rule_a8(repo, col):
+    """length/2 in the modes whose list argument is partial ('l' open list, 'v' variable): every answer is a closed list built by build_list(.., Term('[]'))"""
+    from .. import dtable, modes
+
+    MOD = "problog.engine_builtin"
+    f = repo.func(MOD, "_builtin_length")
+    m = f.module
+    sites = [s_ for s_ in modes.sites(repo, [MOD]) if s_.func is f]
+    if len(sites) != 1 or sites[0].modes is None or sites[0].var is None:
+        raise AnalysisError("_builtin_length: check_mode site not understood")
+    site = sites[0]
+    call_src = norm(site.call)
+    lparam = f.params[0]
+    paths = dtable.extract(f.node, opaque_loops=True)
+    n = 0
+    for i, md in enumerate(site.modes):
+        ps = dtable.compatible(paths, [(call_src, i)])
+        if not ps:
+            raise AnalysisError("_builtin_length: no path for mode %r" % md)
+        partial = md[0] in ("l", "v")
+        for p in ps:
+            if p.end != "return" or p.value in ("[]", None):
+                continue
+            n += 1
+            try:
+                e = ast.parse(p.value, mode="eval").body
+            except SyntaxError:
+                raise AnalysisError("_builtin_length: return value not parseable")
+            if not (isinstance(e, ast.List) and len(e.elts) == 1 and isinstance(e.elts[0], ast.Tuple) and len(e.elts[0].elts) == 2):
+                raise AnalysisError("_builtin_length: return value not understood: %s" % p.value[:80])
+            first = norm(e.elts[0].elts[0])
+            if partial:
+                ok = first.startswith("build_list(") and first.endswith("Term('[]'))")
+                col.decide("A8", m, f.node, ok, "mode %r: the answer is a closed list of the requested length" % md,
+                           "length/2 in mode %r (list argument %s) returns %s as the list: the answer must be a closed list built with build_list(..., Term('[]')) - returning the "
+                           "partial list itself leaves its tail unbound, so `length([a|T], 1)` does not bind T to []" % (md, "open" if md[0] == "l" else "unbound", first[:60]),
+                           construct="def _builtin_length: mode %s answer (%s)" % (md, "closed" if ok else first[:40]), function="_builtin_length")
+            else:
+                col.decide("A8", m, f.node, first == lparam, "mode %r: a proper list is returned as it is" % md, "length/2 in mode %r must return the given proper list unchanged" % md,
+                           construct="def _builtin_length: mode %s answer" % md, function="_builtin_length")
+    col.floor("A8.length_answers", n, 4)
+
+
 def run(repo, col):
+    col.rule("A8", "length/2 answers are closed lists in the partial-list modes")
     col.rule("A1", "documented arithmetic functions/predicates exist in the dispatch table / builtin registry")
     col.rule("A2", "duplicate dispatch keys carry identical implementations")
     col.rule("A3", "implementation meaning vs frozen Yap/SWI semantics table")
@@ -317,3 +363,4 @@ def run(repo, col):
     rule_a5(repo, col)
     rule_a6(repo, col)
     rule_a7(repo, col)
+    rule_a8(repo, col)
